@@ -192,6 +192,19 @@ func checkC03(c *Ctx) {
 			} else {
 				r.OK("C03.3", "handleNewTCPConn: SetDeadline precedes the first Read / drain", setDL.Pos(), "must-pass")
 			}
+			// the deadline of an unidentified connection is set once: re-arming it makes the close time a function of
+			// the probe's pacing
+			eachInstr(h, func(in ssa.Instruction) {
+				call, ok := in.(*ssa.Call)
+				if !ok || call == setDL || !call.Call.IsInvoke() || !aliases[call.Call.Value] {
+					return
+				}
+				switch call.Call.Method.Name() {
+				case "SetDeadline", "SetReadDeadline", "SetWriteDeadline":
+					r.Bad("C03.3", "handleNewTCPConn: the classification deadline is set again ("+call.Call.Method.Name()+")", in.Pos(), fnName(h),
+						"the unidentified connection's deadline is changed after it was first set: the moment the station closes the connection then depends on when (and how) the probe sent its bytes, not only on the random 5-10 s drawn at accept")
+				}
+			})
 			okD := false
 			desc := pathOf(setDL.Call.Args[0])
 			if add, ok := setDL.Call.Args[0].(*ssa.Call); ok && calleeName(&add.Call) == "(time.Time).Add" {
@@ -374,6 +387,107 @@ func checkC03(c *Ctx) {
 		}
 	}
 
+	// ---- C03.6 the error surface of classification: whatever a probe sends, a transport answers "more data" or
+	// "not mine" (the two outcomes on which the handler keeps reading / draining); any other error takes the
+	// handler's give-up branch, which stops reading. Other errors are acceptable only after identification
+	// (reviewed per transport below).
+	r.Rule("C03.6", "before identification a wrapping transport returns only ErrTryAgain / ErrNotTransport (possibly wrapped)", 3)
+	{
+		ec := newErrClassifier(c)
+		const regState = "depends only on the stored state of a registration on the phantom (its key stream / keys), not on the probe's bytes"
+		const afterMark = "returned only after the client's mark matched a registration's keys, i.e. after identification"
+		const afterTag = "returned only after the revealed tag matched a registration (the client proved knowledge of that registration's secret)"
+		reviewed := map[string]map[string]string{
+			"obfs4": {
+				"other:fmt.Errorf(broken registration)": regState, "other:fmt.Errorf(Incorrect Key Type)": regState,
+				"other:golang.org/x/crypto/curve25519.X25519": regState, "dtls.ErrInsufficientBuffer": regState, "net.ErrClosed": regState,
+				"other:fmt.Errorf(use of Read on packet-oriented…)": regState, "other:new(net.OpError)": regState, "other:readBytes.err": regState, "other:s.readErr": regState,
+				"other:github.com/refraction-networking/obfs4/common/drbg.NewSeed":                         afterMark,
+				"other:(*github.com/refraction-networking/obfs4/transports/obfs4.Transport).ServerFactory": afterMark,
+				"other:(github.com/refraction-networking/obfs4/transports/base.ServerFactory).WrapConn":    afterMark,
+			},
+			"prefix": {"prefix.ErrIncorrectPrefix": afterTag, "prefix.ErrIncorrectTransport": afterTag},
+		}
+		for _, f := range wrappingImpls(c) {
+			classes := ec.ofFunc(f, 2)
+			tp := fnPkgPath(f)
+			tp = tp[strings.LastIndex(tp, "/")+1:]
+			var bad, rev []string
+			for _, k := range sortedKeys(classes) {
+				switch {
+				case k == "nil", k == "transports.ErrTryAgain", k == "transports.ErrNotTransport":
+					continue
+				case reviewed[tp][k] != "":
+					rev = append(rev, k)
+					continue
+				case !strings.HasPrefix(k, "other:") && !strings.HasPrefix(k, "param:"):
+					// a package-level error whose initialiser wraps one of the two sentinels carries their class
+					if gl := findErrGlobal(c, k); gl != nil {
+						cls := ec.globalClass(gl)
+						if cls["transports.ErrTryAgain"] || cls["transports.ErrNotTransport"] {
+							continue
+						}
+					}
+				}
+				bad = append(bad, k)
+			}
+			if len(bad) == 0 {
+				ev := "nil / try-again / not-transport"
+				if len(rev) > 0 {
+					ev += "; reviewed: " + strings.Join(rev, ", ")
+				}
+				r.OK("C03.6", fnName(f)+": error classes before identification", f.Pos(), ev)
+			} else {
+				r.Bad("C03.6", fnName(f)+": can return "+firstN(strings.Join(bad, ", "), 90), f.Pos(), fnName(f),
+					"on unauthenticated input this transport can return an error that is neither ErrTryAgain nor ErrNotTransport nor in the reviewed table ("+strings.Join(bad, ", ")+"): the handler then gives up on the connection and sleeps until the deadline without reading, so the station's reaction (it stops reading; a writer blocks) depends on the probe's bytes")
+			}
+		}
+		// the prefix transport's two post-identification errors really are post-identification
+		if tf := c.fn("C03.6", "pkg/transports/wrapping/prefix", "Transport", "tryFindReg"); tf != nil {
+			var getReg *ssa.Call
+			for _, ci := range callsIn(tf, shortIs("getReg")) {
+				getReg, _ = ci.(*ssa.Call)
+			}
+			n := 0
+			eachInstr(tf, func(in ssa.Instruction) {
+				u, ok := in.(*ssa.UnOp)
+				if !ok || u.Op != token.MUL {
+					return
+				}
+				g, ok := u.X.(*ssa.Global)
+				if !ok || (g.Name() != "ErrIncorrectTransport" && g.Name() != "ErrIncorrectPrefix") {
+					return
+				}
+				// uses that produce the error (not errors.Is tests of an already recorded one)
+				produces := false
+				for _, ref := range *u.Referrers() {
+					switch x := ref.(type) {
+					case *ssa.Return, *ssa.Store, *ssa.MakeInterface, *ssa.Phi:
+						_ = x
+						produces = true
+					}
+				}
+				if !produces {
+					return
+				}
+				n++
+				okk := getReg != nil && guarded(tf, in, errAtoms(getReg, true)...)
+				if !okk {
+					// the final `return ErrIncorrectPrefix` is guarded by errors.Is(eWrongPrefix, ErrIncorrectPrefix), and
+					// eWrongPrefix is only assigned under the getReg guard
+					okk = guardedM(tf, in, func(cnd string, pol bool) bool {
+						return pol && strings.HasPrefix(cnd, "errors.Is(") && strings.Contains(cnd, "prefix.ErrIncorrectPrefix")
+					})
+				}
+				r.Check(okk, "C03.6", "tryFindReg: "+g.Name()+" only after a registration was found under the revealed tag", in.Pos(), fnName(tf), "dominated by getReg err == nil (or by the recorded wrong-prefix match)",
+					g.Name()+" can be produced although no registration was found under the revealed tag: a probe triggers the handler's give-up branch")
+			})
+			if n == 0 {
+				r.Note("C03.6: tryFindReg no longer produces ErrIncorrectTransport / ErrIncorrectPrefix")
+			}
+		}
+	}
+
 	// ---- C03.1 (transports) and C03.4
 	impls := wrappingImpls(c)
 	if len(impls) < 3 {
@@ -536,4 +650,20 @@ func onlyObserves(f *ssa.Function, idx int, depth int) bool {
 		}
 	}
 	return ok
+}
+
+// findErrGlobal resolves "pkg.Name" to the package-level variable of a repository package.
+func findErrGlobal(c *Ctx, qual string) *ssa.Global {
+	i := strings.Index(qual, ".")
+	if i < 0 {
+		return nil
+	}
+	for _, sp := range c.P.SSAPkgs {
+		if sp.Pkg.Name() == qual[:i] {
+			if g, ok := sp.Members[qual[i+1:]].(*ssa.Global); ok {
+				return g
+			}
+		}
+	}
+	return nil
 }
